@@ -13,6 +13,7 @@
 import QV.Proofs.WriterSession
 import QV.Proofs.NameDecode
 import QV.Proofs.NameRoundTrip
+import QV.Proofs.FinishTsigOwner
 
 namespace QV.C13
 open QV QV.Writer QV.ServerSafety
@@ -158,6 +159,25 @@ theorem C13_written_name_round_trip (hint : Hint) (n : WName) (s : State) (h : W
           = some (w, n.len, k) ∧
       w.map lowerU8 = n.wire.map lowerU8 ∧ (s.mode ≠ .standard → w = n.wire) :=
   writeHintedName_round_trip hint n s h hn hh p hok
+
+/-- … and of a name written without a hint (the QNAME; every `CompressibleName` inside RDATA) -/
+theorem C13_unhinted_name_round_trip (n : WName) (s : State) (h : WInv s) (hn : n.WF) (p : Option Prior)
+    (hok : (writeUnhintedName n s).1 = .ok p) :
+    ∃ w k, Spec.specDecodeName ((writeUnhintedName n s).2.octets.extract 0 (writeUnhintedName n s).2.cursor)
+        s.cursor = some (w, n.len, k) ∧
+      w.map lowerU8 = n.wire.map lowerU8 ∧ (s.mode ≠ .standard → w = n.wire) :=
+  writeUnhintedName_round_trip n s h hn p hok
+
+/-- the same for the owner of any record (`add_rr`), on any message that agrees with the buffer below
+    the cursor — and in particular for **the owner of the TSIG record `finish` appends**: on the
+    finished message it decodes to the key name (compressed against earlier names or not) -/
+theorem C13_tsig_owner_decodes (macFn : Tsig → List UInt8 → List UInt8) (hmac : MacLenOK macFn)
+    (s : State) (hI : I s) (ts : Tsig) (hts : s.tsig = some ts)
+    (m : Bytes) (mac : Option (List UInt8)) (hf : finish s macFn = .ok (m, mac)) :
+    ∃ w k, Spec.specDecodeName m (finishPrefix s ++ optEnc s.edns).length = some (w, ts.rr.keyName.len, k) ∧
+      (finishPrefix s ++ optEnc s.edns).length + k + 10 ≤ m.size ∧
+      w.map lowerU8 = ts.rr.keyName.wire.map lowerU8 ∧ (s.mode ≠ .standard → w = ts.rr.keyName.wire) :=
+  finish_tsig_owner_decodes macFn hmac s hI ts hts m mac hf
 
 /-! ## which RDATA may be compressed (tie to the source: the table is *generated* from
     `Rdata::components` and the `components_as_*` constructors on every run) -/
